@@ -243,6 +243,15 @@ example : execQuery exEnv
         [] (.bool true) [] none none)
     = .ok (.arr [.obj [("id", .num 2)], .obj [("id", .num 3)]]) := by decide
 
+/-- `SELECT SUM(f) AS v FROM t` / `SELECT g, MAX(f) AS v FROM t GROUP BY g` over rows whose `f` is a boolean on one row: the
+    statement fails (C19; `C19.numeric_aggregate_type_error` is the general fact about the aggregate bodies) -/
+example : execQuery exEnv [("t", .arr [.obj [("f", .num 1), ("g", .num 1)], .obj [("f", .bool true), ("g", .num 1)]])] {}
+      (.select [] false [.item (.aggr "sum" [.col ["f"]]) "v" "v"] (.table ["t"] "" "t") (.bool true) [] (.bool true) [] none none)
+    = .error .error := by decide
+example : execQuery exEnv [("t", .arr [.obj [("f", .num 1), ("g", .num 1)], .obj [("f", .bool true), ("g", .num 1)]])] {}
+      (.select [] false [.item (.col ["g"]) "g" "", .item (.aggr "max" [.col ["f"]]) "v" "v"] (.table ["t"] "" "t") (.bool true)
+        [("g", ["g"])] (.bool true) [] none none)
+    = .error .error := by decide
 /-- `SELECT a, a - MAX(a) AS d FROM t LIMIT 2`: an aggregate NESTED in an expression of a plain select list is over all rows
     that passed WHERE (MAX = 5, from the fourth row), although the window keeps two (round 11: a scan that stopped at the
     end of the window) -/
